@@ -626,6 +626,25 @@ func (o *Oracle) checkRestoreReturn(c *Call, inc *Inc) {
 		return
 	}
 	w.stats.probe("user_restore_succeeded")
+	// "... or a leadership transfer is in progress": this server sent TimeoutNow for a transfer before
+	// the Restore was called, and that transfer's own future was still unanswered when Restore returned
+	// (the transfer future is answered before the in-progress flag is cleared, raft.go leaderLoop)
+	for _, tc := range w.cl.calls {
+		if tc.Kind != "transfer" || tc.Node != c.Node || tc.Inc != c.Inc || tc.InvokeSeq > c.InvokeSeq || (tc.ReturnSeq != 0 && tc.ReturnSeq < c.ReturnSeq) {
+			continue
+		}
+		for i := len(w.net.msgs) - 1; i >= 0; i-- {
+			m := w.net.msgs[i]
+			if m.SentSeq < tc.InvokeSeq {
+				break
+			}
+			if m.Kind == "TN" && m.Src == c.Node && m.SrcInc == c.Inc && m.SentSeq < c.InvokeSeq {
+				w.violate("C20", "C20/restore-during-leadership-transfer", "%s: Restore (called at seq %d) returned nil although the server had sent TimeoutNow to s%d at seq %d for a leadership transfer (called at seq %d) whose future was still unanswered when Restore returned (seq %d)",
+					inc.tag, c.InvokeSeq, m.Dst, m.SentSeq, tc.InvokeSeq, c.ReturnSeq)
+				break
+			}
+		}
+	}
 	// "Restore is refused while a membership change is uncommitted": the same configuration change
 	// was pending on this server from before the call was made until it returned
 	if since := inc.cfgUncommittedSince; since != 0 && since < c.InvokeSeq {
